@@ -488,7 +488,9 @@ pub fn abstract_plus(first: &Value, second: &Value) -> Value {
 
     match (first_num, second_num) {
         (Some(f), Some(s)) => {
-            return Value::Number(Number::from_f64(f + s).unwrap());
+            // A sum that is not finite (e.g. 1e308 + 1e308) has no JSON number:
+            // like serde_json's own f64 conversion, yield null instead of panicking.
+            return Value::from(f + s);
         }
         _ => {}
     };
